@@ -544,6 +544,9 @@ func (ex *Exec) specCall(sc *specCtx, e *ast.CallExpr) (Val, bool) {
 	case "bytesEq":
 		a := ex.specArgs(sc, e.Args)
 		return Val{bytesEq(a[0].T, a[1].T), typBool}, true
+	case "slicesEq":
+		a := ex.specArgs(sc, e.Args)
+		return Val{ex.slicesEqualTerm(a[0].T, a[1].T, elemTypeOf(a[0].Typ)), typBool}, true
 	case "isnil":
 		a := ex.specArgs(sc, e.Args)
 		if a[0].T.S == SSlice {
